@@ -132,13 +132,18 @@ theorem handleModeLine_step {cfg : Cfg} {m m' : M} {l : L} {b : Bool}
     · split at e <;> (cases e; exact stepS_upd_free g rfl rfl rfl rfl rfl rfl rfl rfl)
     · cases e; exact StepS.refl g
 
-theorem handleAdditionalCases_step {cfg : Cfg} {m m' : M} {l : L} {b : Bool} {to : State}
-    (e : handleAdditionalCases cfg m l to = .ok (b, m')) (g : Good m) : StepS m m' := by
+/-- `handle_additional_cases` run on a machine `m` reached from `m0` -/
+theorem handleAdditionalCases_reach {cfg : Cfg} {m0 m m' : M} {l : L} {b : Bool} {to : State}
+    (e : handleAdditionalCases cfg m l to = .ok (b, m')) (r : Reach m0 m) : StepS m0 m' := by
   unfold handleAdditionalCases at e
-  have c : ReachC m { flushMP m with st := to } := (Reach.start g).flushMP.upd rfl rfl rfl rfl rfl rfl
+  have c : ReachC m0 { flushMP m with st := to } := r.flushMP.upd rfl rfl rfl rfl rfl rfl
   split at e
   · cases e; exact (c.emit.writeGeneric cfg _ _ (by simp)).stepS
   · cases e; exact c.stepS
+
+theorem handleAdditionalCases_step {cfg : Cfg} {m m' : M} {l : L} {b : Bool} {to : State}
+    (e : handleAdditionalCases cfg m l to = .ok (b, m')) (g : Good m) : StepS m m' :=
+  handleAdditionalCases_reach e (Reach.start g)
 
 theorem handleMisc_step {cfg : Cfg} {m m' : M} {l : L} {b : Bool}
     (e : handleMisc cfg m l = .ok (b, m')) (g : Good m) : StepS m m' := by
@@ -158,7 +163,7 @@ theorem handleSubmoduleLog_step {cfg : Cfg} {m m' : M} {l : L} {b : Bool}
   unfold handleSubmoduleLog at e
   split at e
   · cases e; exact StepS.refl g
-  · exact handleAdditionalCases_step e g
+  · exact handleAdditionalCases_reach e (pendingDiffName_reachC cfg (Reach.start g).flushMP).1.toReach
 
 theorem handleSubmoduleShort_step {cfg : Cfg} {m m' : M} {l : L} {b : Bool}
     (e : handleSubmoduleShort cfg m l = .ok (b, m')) (g : Good m) : StepS m m' := by
